@@ -73,6 +73,8 @@ def _case(draw, tier):
     docs = [draw(gen.contents(max_small=16, big=False)) for _ in range(2)]
     algo = cfg["algo"]
     op = ops.weighted(
+        (1, st.fixed_dictionaries({"op": st.just("store"), "pid": st.none(), "c": st.integers(0, 2), "kind": st.just("str"),
+                                   "nopid_args": st.sampled_from(["wrong", "right"])})),
         (6, ops.store_op(PIDS, 3, allow_none=True, validation=True, kinds=("str", "bytesio", "file"))),
         (4, ops.tag_op(PIDS, 3, algo, never=True)),
         (6, ops.delete_op(PIDS)),
